@@ -142,6 +142,25 @@ pub fn apply(obj: &mut Object, op: &str) -> String {
             *obj = Object::from_vec(parse_pairs(p[1]));
             "ok".into()
         }
+        "fromvecf" => {
+            *obj = Object::from(parse_pairs(p[1])); // From<Vec<Entry>>
+            "ok".into()
+        }
+        "fromiterkv" => {
+            *obj = parse_pairs(p[1]).into_iter().map(|e| (e.key, e.value)).collect(); // FromIterator<(Key, Value)>
+            "ok".into()
+        }
+        "setatm" => {
+            // IntoIterator for &mut Object
+            let mut done = "none".to_string();
+            for (i, (_, x)) in (&mut *obj).into_iter().enumerate() {
+                if i == n(1) {
+                    *x = val(n(2));
+                    done = "ok".into();
+                }
+            }
+            done
+        }
         "fromiter" => {
             *obj = parse_pairs(p[1]).into_iter().collect();
             "ok".into()
@@ -293,6 +312,10 @@ fn op_instances(nkeys: usize, nvals: usize, len: usize) -> Vec<String> {
     ops.push("clonefrom".into());
     ops.push("take".into());
     ops.push("setat:0:7".into());
+    ops.push("setatm:1:8".into());
+    ops.push("setu:0:6".into());
+    ops.push("gmoi:1:5".into());
+    ops.push("pushe:1:4".into());
     ops.push("ext:0=1,1=0,0=1".into());
     ops
 }
@@ -373,7 +396,15 @@ pub fn generate(args: &Args, out: &mut Out) {
                 14 | 15 => format!("rmat:{}", r.below(len_guess + 2)),
                 16 => "sort".into(),
                 17 => format!("goi:{k}:{v}"),
-                18 => format!("set:{k}:{}:{v}", r.below(3)),
+                18 => match r.below(4) {
+                    0 => format!("setu:{k}:{v}"),
+                    1 => {
+                        len_guess += 1;
+                        format!("gmoi:{k}:{v}")
+                    }
+                    2 => format!("setatm:{}:{v}", r.below(len_guess + 1)),
+                    _ => format!("set:{k}:{}:{v}", r.below(3)),
+                },
                 19 => format!("setat:{}:{v}", r.below(len_guess + 1)),
                 20 => (*r.pick(&["clone", "take", "clonefrom"])).to_string(),
                 _ => format!(
@@ -397,7 +428,7 @@ pub fn generate(args: &Args, out: &mut Out) {
         let mut r = rng.fork();
         let pairs: Vec<String> = (0..r.below(12)).map(|_| format!("{}={}", r.below(4), r.below(3))).collect();
         let l = if pairs.is_empty() { "-".to_string() } else { pairs.join(",") };
-        let which = *r.pick(&["fromvec", "fromiter"]);
+        let which = *r.pick(&["fromvec", "fromiter", "fromvecf", "fromiterkv"]);
         out.case_str(&format!("h 4 {which}:{l} sort"));
         out.case_str(&format!("h 4 {which}:{l} ins:1:5:*"));
         out.case_str(&format!("h 4 {which}:{l} insf:2:5:1 rm:0:0"));
